@@ -5,8 +5,8 @@
    G M = I and M = M^T are consequences (theorem 1).  All theorems hold for every ordered field F (Qc executed, R). *)
 From Coq Require Import ZArith QArith Qcanon List Bool Arith.
 From QV.Core Require Import OF QcOF Sums Mat.
-From QV.Model Require Import C09_LinEst C09_History.
-From QV.Proofs Require Import C09_LinEst C09_Rank C09_GJ C09_History C09_Witness.
+From QV.Model Require Import C09_LinEst C09_History C09_VarSem.
+From QV.Proofs Require Import C09_LinEst C09_Rank C09_GJ C09_History C09_VarMaps C09_Witness.
 Import ListNotations.
 
 (* 1. the left-inverse certificate alone gives the two-sided inverse and its symmetry *)
@@ -293,6 +293,29 @@ Theorem C09_estimate_function_of_contents : forall (F : OF) m n (A A' : @mat F) 
 Proof. exact calc_estimate_sequence_ext. Qed.
 Print Assumptions C09_estimate_function_of_contents.
 
+(* 13d. the OBJECT defined by estimated variables (measurement process, equality constraint parametrised away), for every
+        number of outcomes m and every block size d2 (= dim^2): the model ref_hss_stacked — proved equal, on every run, to the
+        index logic REGENERATED from mprocess.convert_var_to_hss (coq/gen/C09_VarEquiv.v) — has m full Hilbert-Schmidt
+        blocks, keeps the variables (deleting the d2 reconstructed entries gives var back) and satisfies the constraint
+        (the first rows of the m blocks add up to e_0).  So estimated_qoperation carries exactly estimated_var. *)
+Theorem C09_object_from_var_mprocess : forall (F : OF) d2 m (var : list F), (0 < d2)%nat -> (1 <= m)%nat ->
+  length var = (d2 * d2 * (m - 1) + (d2 * d2 - d2))%nat ->
+  let r := ref_hss_stacked d2 m var in
+  length r = (d2 * d2 * m)%nat /\
+  firstn (d2 * d2 * (m - 1)) r ++ skipn (d2 * d2 * (m - 1) + d2) r = var /\
+  first_rows_sum d2 (d2 * d2) m r = e0 d2.
+Proof. exact ref_hss_spec. Qed.
+Print Assumptions C09_object_from_var_mprocess.
+
+(* 13e. the same for an estimated POVM: k given elements, the (k+1)-th is  sd e_0 - their sum  (sd stands for sqrt(dim)):
+        k+1 elements, the variables are kept, and the elements add up to  sd e_0  (the identity), for every k and d2 *)
+Theorem C09_object_from_var_povm : forall (F : OF) d2 k (sd : F) (var : list F), (0 < d2)%nat -> length var = (d2 * k)%nat ->
+  let r := ref_vecs_stacked d2 (k + 1) sd var in
+  length r = (d2 * (k + 1))%nat /\ firstn (d2 * k) r = var /\
+  sum_axis0 d2 (chunk d2 (k + 1) r) = sd :: np_zeros (d2 - 1).
+Proof. exact ref_vecs_spec. Qed.
+Print Assumptions C09_object_from_var_povm.
+
 (* 14. the sample counts attached to the data do not influence the result (values and error branches alike).
        In the model the counts ARE an argument (first component of every pair), as in the code. *)
 Theorem C09_sample_counts_irrelevant : forall (F : OF) m n (A : @mat F) (b : list F) (sq sq' : list (dataset F)),
@@ -354,3 +377,8 @@ Example C09_example_history :
   nth_error (run_history (F:=Qc_OF) tt [mkJob 1 2 wA [q 0 1] [[(1%Z, [q 1 1])]]; mkJob 5 2 exA exb [exds]; mkJob 1 2 wA [q 0 1] [[(1%Z, [q 1 1])]]]) 1
   = Some (run_job (mkJob 5 2 exA exb [exds])).
 Proof. exact (C09_history_position_independent Qc_OF tt [mkJob 1 2 wA [q 0 1] [[(1%Z, [q 1 1])]]] [mkJob 1 2 wA [q 0 1] [[(1%Z, [q 1 1])]]] (mkJob 5 2 exA exb [exds])). Qed.
+(* 13d is not vacuous: d2 = 2, m = 3, ten variables (2 full blocks of 4 + the last block without its first row of 2) *)
+Example C09_example_object_from_var :
+  length (repeat (q 1 3) 10) = (2 * 2 * (3 - 1) + (2 * 2 - 2))%nat /\
+  length (ref_hss_stacked (F:=Qc_OF) 2 3 (repeat (q 1 3) 10)) = 12%nat.
+Proof. split; vm_compute; reflexivity. Qed.
